@@ -90,6 +90,15 @@ class ExprMixin:
             return self.const(v.value)
         if isinstance(v, ast.Call) and ast.unparse(v.func).endswith("getLogger"):
             return ModuleRef("logger")
+        # immutable collections of literals: frozenset(("a", "b")), ("a", "b"), frozenset({"a"}) ...
+        lit = v
+        if isinstance(v, ast.Call) and isinstance(v.func, ast.Name) and v.func.id in ("frozenset", "tuple") \
+                and len(v.args) == 1 and not v.keywords:
+            lit = v.args[0]
+        if isinstance(lit, (ast.Tuple, ast.Set, ast.List)) and (lit is not v or isinstance(v, ast.Tuple)) \
+                and all(isinstance(e, ast.Constant) for e in lit.elts):
+            # (only membership / iteration are meaningful for the frozenset case; a PyTuple supports both)
+            return PyTuple([self.const(e.value) for e in lit.elts])
         raise Unsupported(f"module-level name '{name}' is not a constant")
 
     def const(self, v):
@@ -528,6 +537,8 @@ class ExprMixin:
             raise Unsupported(f"'in' on {type(cont).__name__} (line {line})")
         if isinstance(item, ClassRef):
             item = SV(self.w.type_const(item.name), T.TYPE)
+        if cont.ty.kind == "opt" and cont.ty.args[0].kind in ("list", "dict", "set", "str"):
+            cont = self.coerce(cont, cont.ty.args[0], line)  # `x in None` is a TypeError: obliges `is not None`
         k = cont.ty.kind
         if cont.term is None:
             return z3.BoolVal(False)
